@@ -58,8 +58,9 @@ class Module:
                 if loops_to_comprehensions(self.tree):
                     for q_, d_ in propagate.apply(self.tree, relpath).items():
                         self.propagated.setdefault(q_, []).extend(d_)
-            from .normalize import unroll_literal_loops
+            from .normalize import unroll_literal_loops, fuse_nested_comprehensions
             self.norm_counts['unrolled'] = unroll_literal_loops(self.tree)
+            self.norm_counts['fused'] = fuse_nested_comprehensions(self.tree)
             ast.fix_missing_locations(self.tree)
         self.lines = source.splitlines()
         self._defs = None
